@@ -73,7 +73,7 @@ func RacePass(env *engine.Env, outFile string) error {
 		for it := 0; it < scIters; it++ {
 			n := len(c.Formats)
 			cfgs := make([]*nfpm.Config, n)
-			if c.Mode == "S1" {
+			if c.Mode == "S1" || c.Mode == "S1v" {
 				cfg, _ := parseYAML(text, nil)
 				for i := range cfgs {
 					cfgs[i] = &cfg
@@ -92,6 +92,9 @@ func RacePass(env *engine.Env, outFile string) error {
 				go func(i int) {
 					defer wg.Done()
 					<-start
+					if c.Mode == "S1v" {
+						_ = cfgs[i].Validate()
+					}
 					out[i] = hash(cfgs[i], c.Formats[i])
 				}(i)
 			}
